@@ -231,7 +231,7 @@ func TestVerifC17rt(t *testing.T) {
 					k.c.Close()
 				}
 			}
-			c.Outcome(fmt.Sprintf("%s transition=%v", strings.Join(hist, ","), inTransition))
+			c.Outcome(fmt.Sprintf("last=%s accepted=%d waiting=%d cap=%d transition=%v", hist[len(hist)-1], accepted, waiting, capNow, inTransition))
 		}
 		mc.RunJobsAll("C17", []mc.Job{{Name: "http-runtime-histories",
 			Run: func(r *mc.Result, env *mc.Env) {
